@@ -164,6 +164,9 @@ pub mod socket;
 /// Verification hooks for the SCMP handling of sockets (cargo feature `verif-hooks`).
 #[cfg(feature = "verif-hooks")]
 pub mod verif_scmp;
+/// Verification hooks for the send path of managed sockets (cargo feature `verif-hooks`).
+#[cfg(feature = "verif-hooks")]
+pub mod verif_send;
 
 use std::{borrow::Cow, fmt, net, sync::Arc, time::Duration};
 
